@@ -1116,7 +1116,13 @@ func runConcSample(bin, prop string, seed uint64, thorough bool) *RunReport {
 	if (prop == "C13" || prop == "C02") && !r.M.NoStore && rng.Chance(1, 5) {
 		// the pre-state carries the torn tail of an append that was killed: the
 		// first writer of the batch repairs it while readers are under way
-		st := Step{Disk: &DiskOp{Kind: "tail_fragment", Arg: `{"type":"new_task","ts":"2030-01-01T00:00:00Z","data":{"id":"QQQQQQ","uuid":"00000000-0000-4000-8000-000000000000","epic_id":"","state":"todo","title":"torn away","bo`}}
+		frag := `{"type":"new_task","ts":"2030-01-01T00:00:00Z","data":{"id":"QQQQQQ","uuid":"00000000-0000-4000-8000-000000000000","epic_id":"","state":"todo","title":"torn away","bo`
+		if rng.Chance(1, 3) {
+			// a fragment longer than a block (the dead writer was appending a
+			// large body)
+			frag += `dy":"` + strings.Repeat("lorem ipsum dolor sit amet ", 200+rng.Intn(600))
+		}
+		st := Step{Disk: &DiskOp{Kind: "tail_fragment", Arg: frag}}
 		sc.Steps = append(sc.Steps, st)
 		r.ExecStep(st)
 	}
